@@ -19,10 +19,13 @@ S = "libwild::symbol_db::SymbolDb::"
 
 
 def template_prefix(text, word):
-    """format_args template `\\x07__wrap_\\xc0\\x00`: a literal piece `word` followed directly by one argument, nothing after."""
+    """format_args template `\\x07__wrap_\\xc0\\x00`: a literal piece `word` followed directly by one argument, nothing after.
+    A bare string literal equal to `word` (used with concat/push_str/`+`) is accepted too; the order of concatenation is then not decided."""
     if text is None:
         return False
     t = text
+    if t.strip() in ('"%s"' % word, 'b"%s"' % word, "const \"%s\"" % word):
+        return True
     lit = "\\\\x%02x%s\\\\xc0\\\\x00" % (len(word), word)
     return bool(re.search(lit, t)) or bool(re.search(r'"\\x%02x%s\\xc0\\x00"' % (len(word), word), t))
 
